@@ -21,11 +21,11 @@ TRUSTED = [
     "tracer components; torch<->numpy conversion",
 ]
 ASSUMPTIONS = [
-    "framing theorem hypothesis N >= frame_length (the property's clause); for L//2+1 <= N < L with a small shift the port reads outside its storage (RuntimeError) - outside the property, counted as out_of_scope",
+    "the framing theorem now holds for every length (the padding gathers the periodic symmetric extension, as np.pad does); before that repair L//2+1 <= N < L with a small shift read outside the storage",
     "PyTorchDither statistics and torch.manual_seed reproducibility, TorchScript agreement, the wrappers and float32 working precision are checked by runs only",
 ]
 LEVEL_TEXT = (
-    "Proved: for N >= frame_length the port's flipped-slice padding + as_strided yields exactly compute_full's frames "
+    "Proved: for every signal length the port's symmetric-index padding + as_strided yields exactly compute_full's frames "
     "and stays inside its storage; the port's segment walk equals the NumPy walk (hence the specification) for every "
     "DFT size/start/length; both return zero frames below L//2+1; per-segment doubling equals doubling the sum. Tied "
     "to torch.py by exact-integer tracer correspondence through the public module; values on library banks, wrappers, "
@@ -118,7 +118,7 @@ def run(ctx, driver):
             except RuntimeError as e:
                 got, err = None, "X"
             want = comp.compute_full(x.astype(dt))
-            in_scope = N >= L or N < L // 2 + 1
+            in_scope = True  # since the padding repair the port agrees with compute_full for every length
             if in_scope:
                 if err or got.shape != want.shape or not np.allclose(got, want, rtol=1e-6, atol=1e-6):
                     ctx.violation(dict(case, dtype=str(dt.__name__)), want.tolist(), err or got.tolist(),
@@ -182,9 +182,6 @@ def library(ctx):
         x = np.random.RandomState(r.randrange(1 << 30)).randn(N)
         case = dict(kind="library", bank=kind, scale=scale, L=L, S=S, style=style, kaldi=kaldi, N=N, **flags)
         ctx.case(case, kind="library:" + kind)
-        if not (N >= L or N < L // 2 + 1):
-            ctx.count("out_of_scope")
-            continue
         want = comp.compute_full(x)
         mod = pt.PyTorchSTFTFrameComputer.from_stft_frame_computer(comp, torch.cdouble, torch.double)
         try:
